@@ -777,7 +777,11 @@ class FelicaLiteS(FelicaLite):
             attributes = super(FelicaLiteS.NDEF, self)._read_attribute_data()
             if attributes is not None and self._tag._authenticated:
                 # when authenticated and user data is writeable
-                mc = self._tag.read_without_mac(0x88)
+                try:
+                    mc = self._tag.read_without_mac(0x88)
+                except tt3.Type3TagCommandError as error:
+                    self._attribute_error = error
+                    return None
                 rw_bits = unpack("<H", mc[0:2])[0]
                 self._writeable = bool(rw_bits & 0x3ff == 0x3ff)
             return attributes
